@@ -22,8 +22,11 @@ def _plu(ctx, n, r, perm):
     return A
 
 
-def h_maxvol(ctx, n, r, perm, k):
+def h_maxvol(ctx, n, r, perm, k, forder=False):
     A = _plu(ctx, n, r, perm)
+    if forder:
+        # (a Fortran-ordered matrix, e.g. the transposed view of a C-ordered one)
+        A = np.asfortranarray(A)
     e = ctx.real('e')
     ctx.assume(ctx.ge(e, 1), 'e >= 1')
     A0 = A.copy()
@@ -259,6 +262,9 @@ def instances(tier):
                                   (4, 2, 1, True), (4, 3, 1, False), (5, 2, 1, False), (4, 1, 3, False)]):
         for p in perms(n, r, full):
             out.append({'func': 'h_maxvol', 'params': {'n': n, 'r': r, 'perm': list(p), 'k': k}})
+    # Fortran-ordered input (LAPACK may work in such a buffer when an overwrite flag is set)
+    out.append({'func': 'h_maxvol', 'params': {'n': 3, 'r': 2, 'perm': [1, 2, 0], 'k': 2, 'forder': True}})
+    out.append({'func': 'h_maxvol', 'params': {'n': 4, 'r': 2, 'perm': [3, 0, 2, 1], 'k': 1, 'forder': True}})
     # chains of exchanges longer than the number of outside rows (found by search)
     for rows in ([[3, 2, -5], [-3, 6, -2], [-4, -3, -1], [3, -6, -5], [1, -6, 3], [3, 3, 6]],      # 4 exchanges, 3 outside rows
                  [[6, -1], [5, 1], [-5, 5], [-3, 5], [-3, -4]]):                                      # 3 exchanges, 3 outside rows
